@@ -161,13 +161,16 @@ def run_pair(run, I, obj, label, wname, tname, q, owner, fn, avail, units_list, 
     variant = label[len(cls_label):]
     construct = '%s.%s' % (cls_label, wname)
     decided = 0
+    twin = None
     for u in units_list:
         uarg = u[:-2] if q in ENERGY else u
         n0 = len(I.warnings)
         w = getv(I, obj, wname, dict(avail, units=uarg))[0]
         n1 = len(I.warnings)
-        t = getv(I, obj, tname, avail)[0]
-        n2 = len(I.warnings)
+        if twin is None:
+            # the dimensionless form does not take the unit: evaluated once (after the first dimensional call)
+            twin = (getv(I, obj, tname, avail)[0], len(I.warnings) - n1)
+        t, n2 = twin[0], n1 + twin[1]
         rf = rfactor(I, u, molweight)
         counter[0] += 1
         if isinstance(t, Raised):
@@ -287,7 +290,15 @@ def check(run, repo):
         'boolean option of the StatMech wrappers flipped (verbose: the vector of mode contributions, element by '
         'element); reactions with and without a transition state. Per-mass units: species with a composition '
         '(StatMech, Nasa, Nasa9, Shomate, and a BEP relation for the seven wrappers of the base class), and objects '
-        'without one (no attribute elements / elements=None), which have no molar mass and must refuse.')
+        'without one (no attribute elements / elements=None), which have no molar mass and must refuse. A second '
+        'species with the same element symbols and other counts is evaluated after the first for StatMech and the '
+        'three empirical classes (nothing remembered). raise_error=False and raise_warning=False with a mode / an '
+        'attached model that lacks the getters: both forms evaluate and issue the same number of warnings. Shomate '
+        'polynomials stored in J/mol/K and in kJ/mol/K asked in their own and in the other unit. Every wrapper also '
+        'with nothing but T given (defaults of the wrapper against what the twin does when nothing is said; stubs '
+        'answer a call without P like a call with P = 1 bar, the documented default). Reactions also built with '
+        'every optional constructor argument given (Ea, A, beta, sticking coefficient, id, direction, notes; '
+        'switches as they are and flipped): a getter with units stays twin * R (T) whatever was given.')
     run.assumptions = ['unit model of pmutt.constants verified by C12', 'species and mix getters are arbitrary '
                        'functions of the arguments they receive']
     run.undecided = ['numeric values; array-valued T beyond what C02/C13 decide']
